@@ -376,6 +376,9 @@ func evalOnce(c Case, m mode, rs *refSource, net *refNet, lab map[string]bool, r
 	for k := range ref.Stats.Lits {
 		lab["lit:"+k] = true
 	}
+	for k := range ref.Stats.IOHow {
+		lab[k] = true
+	}
 	for k := range ref.Stats.PseudoKinds {
 		lab["pseudo:"+k] = true
 	}
